@@ -37,13 +37,14 @@ struct TAHist
 	json ruleJson(const TA::Transition& t) const
 	{
 		json kids = json::array();
-		for (size_t k : t.GetChildren()) { kids.push_back(k); }
-		return json::array({symName(t.GetSymbol()), kids, t.GetParent()});
+		for (size_t k : t.GetChildren()) { kids.push_back(StOut(k)); }
+		return json::array({symName(t.GetSymbol()), kids, StOut(t.GetParent())});
 	}
 	json read(const TA& a) const
 	{
 		json res;
-		std::vector<size_t> fin(a.GetFinalStates().begin(), a.GetFinalStates().end());
+		std::vector<size_t> fin;
+		for (size_t q : a.GetFinalStates()) { fin.push_back(StOut(q)); }
 		std::sort(fin.begin(), fin.end());
 		res["fin"] = fin;
 		json rules = json::array();
@@ -64,7 +65,7 @@ struct TAHist
 		for (size_t q : states)
 		{
 			json rs = json::array();
-			TA::DownAccessor da = a[q];          // keep the accessor alive while iterating
+			TA::DownAccessor da = a[StIn(q)];    // keep the accessor alive while iterating
 			for (auto it = da.begin(); it != da.end(); ++it) { rs.push_back(ruleJson(*it)); }
 			down.push_back(json::array({q, rs, da.empty()}));
 		}
@@ -73,21 +74,22 @@ struct TAHist
 		for (const json& r : universe)
 		{
 			TA::StateTuple kids;
-			for (const json& k : r.at(1)) { kids.push_back(k.get<size_t>()); }
+			for (const json& k : r.at(1)) { kids.push_back(StIn(k.get<size_t>())); }
 			TA::SymbolType s = raw ? r.at(0).get<size_t>()
 				: const_cast<TAHist*>(this)->alpha.Sym(r.at(0).get<std::string>(), kids.size());
-			bool c1 = a.ContainsTransition(kids, s, r.at(2).get<size_t>());
-			bool c2 = a.ContainsTransition(TA::Transition(r.at(2).get<size_t>(), s, kids));
+			bool c1 = a.ContainsTransition(kids, s, StIn(r.at(2).get<size_t>()));
+			bool c2 = a.ContainsTransition(TA::Transition(StIn(r.at(2).get<size_t>()), s, kids));
 			cont.push_back(json::array({r, c1, c2}));
 		}
 		v["contains"] = cont;
 		auto used = a.GetUsedStates();
-		std::vector<size_t> u(used.begin(), used.end());
+		std::vector<size_t> u;
+		for (size_t q : used) { u.push_back(StOut(q)); }
 		std::sort(u.begin(), u.end());
 		v["used"] = u;
 		v["empty"] = const_cast<TA&>(a).AreTransitionsEmpty();
 		json isfin = json::array();
-		for (size_t q : states) { isfin.push_back(json::array({q, a.IsStateFinal(q)})); }
+		for (size_t q : states) { isfin.push_back(json::array({q, a.IsStateFinal(StIn(q))})); }
 		v["isfinal"] = isfin;
 		return v;
 	}
@@ -143,22 +145,22 @@ json runTAHist(const json& c)
 		{
 			const json& r = st.at(2);
 			TA::StateTuple kids;
-			for (const json& k : r.at(1)) { kids.push_back(k.get<size_t>()); }
+			for (const json& k : r.at(1)) { kids.push_back(StIn(k.get<size_t>())); }
 			if (st.size() > 3 && st.at(3).get<bool>())
 			{	// the Transition overload
-				H.h[i]->AddTransition(TA::Transition(r.at(2).get<size_t>(), H.sym(r.at(0), kids.size()), kids));
+				H.h[i]->AddTransition(TA::Transition(StIn(r.at(2).get<size_t>()), H.sym(r.at(0), kids.size()), kids));
 			}
 			else
 			{
-				H.h[i]->AddTransition(kids, H.sym(r.at(0), kids.size()), r.at(2).get<size_t>());
+				H.h[i]->AddTransition(kids, H.sym(r.at(0), kids.size()), StIn(r.at(2).get<size_t>()));
 			}
 			ev["rule"] = r;
 		}
-		else if (op == "final") { H.h[i]->SetStateFinal(st.at(2).get<size_t>()); ev["q"] = st.at(2); }
+		else if (op == "final") { H.h[i]->SetStateFinal(StIn(st.at(2).get<size_t>())); ev["q"] = st.at(2); }
 		else if (op == "finals")
 		{
 			std::set<size_t> qs;
-			for (const json& q : st.at(2)) { qs.insert(q.get<size_t>()); }
+			for (const json& q : st.at(2)) { qs.insert(StIn(q.get<size_t>())); }
 			H.h[i]->SetStatesFinal(qs);
 			ev["qs"] = st.at(2);
 		}
